@@ -482,6 +482,18 @@ func forgeries(r *core.Rand, sc signedCase) []forgery {
 		f.Options = rm.Mapping{Pairs: append(append([]rm.Pair{}, m.Options.Pairs...), rm.Pair{K: []byte("zzzz"), V: []byte("1")})}
 		out = append(out, forgery{"content-changed-signature-kept", f.Encode()})
 		out = append(out, forgery{"empty-key-pair-spliced-into-options", func() []byte { g := m; g.Options = withEmptyKeyPair(m.Options); return g.Encode() }()})
+		{
+			g := m
+			g.Options = junkTail(r, m.Options)
+			out = append(out, forgery{"bytes-added-inside-options-extent-signature-kept", g.Encode()})
+		}
+		if len(m.Addrs) > 0 {
+			g := m
+			g.Addrs = append([]rm.RouterAddress{}, m.Addrs...)
+			ai := r.Pick(len(g.Addrs))
+			g.Addrs[ai].Options = junkTail(r, m.Addrs[ai].Options)
+			out = append(out, forgery{"bytes-added-inside-address-options-extent-signature-kept", g.Encode()})
+		}
 		if pm := permuted(r, m.Options); pm != nil {
 			g := m
 			g.Options = *pm
@@ -594,6 +606,11 @@ func forgeries(r *core.Rand, sc signedCase) []forgery {
 			g.Options = *pm
 			out = append(out, forgery{"option-pairs-reordered-signature-kept", g.Encode()})
 		}
+		{
+			g := m
+			g.Options = junkTail(r, m.Options)
+			out = append(out, forgery{"bytes-added-inside-options-extent-signature-kept", g.Encode()})
+		}
 		// complete key entries of a type the library does not know inserted (count raised with them):
 		// before the genuine keys, between them, after them
 		if len(m.Keys) < 16 {
@@ -659,6 +676,22 @@ func forgeries(r *core.Rand, sc signedCase) []forgery {
 			g := m
 			g.Options = *pm
 			out = append(out, forgery{"option-pairs-reordered-signature-kept", g.Encode()})
+		}
+		{
+			g := m
+			g.Options = junkTail(r, m.Options)
+			out = append(out, forgery{"bytes-added-inside-options-extent-signature-kept", g.Encode()})
+		}
+		if len(m.Entries) > 0 {
+			g := m
+			g.Entries = append([]rm.MetaEntry{}, m.Entries...)
+			ei := r.Pick(len(g.Entries))
+			g.Entries[ei].Props = junkTail(r, m.Entries[ei].Props)
+			out = append(out, forgery{"bytes-added-inside-entry-properties-extent-signature-kept", g.Encode()})
+			// any bit of the flags word, the reserved ones included
+			g2 := m
+			g2.Flags ^= uint16(1) << uint(1+r.Pick(15))
+			out = append(out, forgery{"flag-bit-changed-signature-kept", g2.Encode()})
 		}
 		for ei := range m.Entries {
 			if pm := permuted(r, m.Entries[ei].Props); pm != nil {
@@ -730,6 +763,17 @@ func permuted(r *core.Rand, m rm.Mapping) *rm.Mapping {
 		return nil
 	}
 	return &out
+}
+
+// junkTail returns the mapping with a few bytes added behind its last pair INSIDE the declared extent
+// (the size field grows with them): what a lenient pair loop stops at and drops.
+func junkTail(r *core.Rand, m rm.Mapping) rm.Mapping {
+	n := []int{1, 2, 3, 1, 2, 3, 4, 7}[r.Pick(8)]
+	tail := r.Bytes(n)
+	if r.Chance(1, 3) {
+		tail = []byte{0, '=', 0, ';', 1, 'x', '=', 1}[:n] // the beginning of further pairs
+	}
+	return rm.Mapping{Raw: append(append([]byte{}, m.Body()...), tail...)}
 }
 
 // longerKeyCert: the identity's KEY certificate with bytes added behind the key types and the
